@@ -1,5 +1,6 @@
 """C19 — payload builder and decoder agree for every byte and word order."""
 import ast
+import re
 import struct
 
 from ..common import Ctx, U, AnalysisError, callee_name, annotate, ret_expr, Poly, NotInt
@@ -63,11 +64,18 @@ def _fmt_of(cx, expr, fn, cls):
     return None
 
 
+def _helpers_only(cx):
+    """inline private helpers of the payload classes themselves; the word helpers (decided by R2) and everything outside the
+    module (pack_bitstring, make_byte_string, struct) stay opaque"""
+    from ..paths import SelfResolver
+    return SelfResolver(cx.idx, stop=lambda fn: fn.cls is None or fn.mod.name != 'pymodbus.payload' or fn.name in ('_pack_words', '_unpack_words'))
+
+
 def builder_summary(cx, cls, name):
     fn = cx.idx.find_method(cls, 'add_' + name)
     if fn is None:
         return None, None
-    for p in cx.enum(fn, cls, max_depth=0):
+    for p in cx.enum(fn, cls, max_depth=2, resolver=_helpers_only(cx)):
         annotate(p)
         for ev in p.ev:
             if ev.kind == 'call' and callee_name(ev.node) == 'append' and U(ev.node.func.value) == 'self._payload':
@@ -81,7 +89,7 @@ def decoder_summary(cx, cls, name):
     if fn is None:
         return None, None
     best = None
-    for p in cx.enum(fn, cls, max_depth=0):
+    for p in cx.enum(fn, cls, max_depth=2, resolver=_helpers_only(cx)):
         st = annotate(p, heap=True)
         final = st.heap.get('self._pointer')
         r = ret_expr(p)
@@ -103,7 +111,40 @@ def _canon(expr):
                 return ast.Call(func=ast.Name(id='REV', ctx=ast.Load()), args=n.args, keywords=[])
             if nm == 'join' and len(n.args) == 1 and isinstance(n.args[0], ast.GeneratorExp):
                 n.args[0] = ast.ListComp(elt=n.args[0].elt, generators=n.args[0].generators)
+            # 'a{}b'.format(x) -> FMT('a{}b', x)
+            if nm == 'format' and isinstance(n.func, ast.Attribute) and isinstance(n.func.value, ast.Constant) and isinstance(n.func.value.value, str) \
+                    and not n.keywords and re.sub(r'\{\}', '', n.func.value.value).count('{') == 0:
+                return ast.Call(func=ast.Name(id='FMT', ctx=ast.Load()), args=[ast.Constant(n.func.value.value)] + list(n.args), keywords=[])
             return n
+
+        def visit_BinOp(self, n):
+            n = self.generic_visit(n)
+            # 'a%db' % x  /  'a%d%s' % (x, y) -> FMT('a{}b', x)
+            if isinstance(n.op, ast.Mod) and isinstance(n.left, ast.Constant) and isinstance(n.left.value, str):
+                t = n.left.value
+                if not re.search(r'%[^dis%]', t) and '%%' not in t and '{' not in t:
+                    args = list(n.right.elts) if isinstance(n.right, ast.Tuple) else [n.right]
+                    return ast.Call(func=ast.Name(id='FMT', ctx=ast.Load()), args=[ast.Constant(re.sub(r'%[dis]', '{}', t))] + args, keywords=[])
+            # '!' + x -> FMT('!{}', x)
+            if isinstance(n.op, ast.Add) and isinstance(n.left, ast.Constant) and isinstance(n.left.value, str) and '{' not in n.left.value \
+                    and isinstance(n.right, ast.Name):
+                return ast.Call(func=ast.Name(id='FMT', ctx=ast.Load()), args=[ast.Constant(n.left.value + '{}'), n.right], keywords=[])
+            return n
+
+        def visit_JoinedStr(self, n):
+            n = self.generic_visit(n)
+            t, args = '', []
+            for v in n.values:
+                if isinstance(v, ast.Constant):
+                    if '{' in str(v.value):
+                        return n
+                    t += str(v.value)
+                elif isinstance(v, ast.FormattedValue) and v.format_spec is None and v.conversion == -1:
+                    t += '{}'
+                    args.append(v.value)
+                else:
+                    return n
+            return ast.Call(func=ast.Name(id='FMT', ctx=ast.Load()), args=[ast.Constant(t)] + args, keywords=[])
 
         def visit_Subscript(self, n):
             n = self.generic_visit(n)
@@ -163,6 +204,20 @@ def run(ck, tier):
         if name == 'bits':
             ck.ob('R1', bf.qn, 'bits go through pack_bitstring', isinstance(barg, ast.Call) and callee_name(barg) == 'pack_bitstring', detail='bits-builder', loc=cx.floc(bf))
             ck.ob('R1', df.qn, 'bits come back through unpack_bitstring', isinstance(ret, ast.Call) and callee_name(ret) == 'unpack_bitstring', detail='bits-decoder', loc=cx.floc(df))
+            # on every path the sequence handed to pack_bitstring is the caller's sequence itself: bit k supplied is bit k packed
+            # (pack_bitstring fills the last byte AFTER the supplied bits, which is where unpack_bitstring expects the fill)
+            par = bf.params[1]
+            for bp in cx.enum(bf, b, max_depth=0):
+                annotate(bp)
+                for ev in bp.ev:
+                    if ev.kind == 'call' and callee_name(ev.node) == 'pack_bitstring' and ev._sub.args:
+                        a0 = ev._sub.args[0]
+                        while isinstance(a0, ast.Call) and callee_name(a0) in ('list', 'tuple') and len(a0.args) == 1:
+                            a0 = a0.args[0]
+                        ck.ob('R1', bf.qn, 'the bit sequence packed is the sequence supplied, element for element', isinstance(a0, ast.Name) and a0.id == par,
+                              detail='bits-sequence-altered', loc=cx.floc(bf, ev.node),
+                              message='add_bits hands `%s` to pack_bitstring instead of the supplied sequence: supplied bit k is no longer bit k of the '
+                                      'packed bytes, which is where decode_bits / unpack_bitstring look for it' % U(ev._sub.args[0])[:70])
             continue
         if name == 'string':
             fmt = barg.args[0] if isinstance(barg, ast.Call) and callee_name(barg) == 'pack' and barg.args else None
@@ -269,10 +324,10 @@ def run(ck, tier):
         ck.ob('R2', pk.qn, 'words are reversed iff wordorder is Little', ('REV(' in txt) == bool(lit), detail='reversal wordorder-little=%s' % lit, loc=cx.floc(pk),
               message='_pack_words %s the word list when wordorder little=%s' % ('reverses' if 'REV(' in txt else 'does not reverse', lit))
         ck.ob('R2', pk.qn, "splits the network image into '!{n}H' words with n = WC[f]//2 and re-packs with byteorder + 'H'",
-              "unpack('!" in txt.replace('"', "'") and 'H' in txt and "pack(self._byteorder + 'H'" in txt,
+              "unpack(FMT('!{}H', WC" in txt.replace('"', "'") and '// 2' in txt and "pack(self._byteorder + 'H'" in txt,
               detail='pipeline-shape little=%s' % lit, loc=cx.floc(pk), message='_pack_words pipeline is `%s`' % txt)
     # the image handed to T by the builder is the network-order packing of the value
-    okimg = any(isinstance(x, ast.Call) and callee_name(x) == 'pack' and len(x.args) == 2 and U(x.args[0]) == "'!{}'.format(%s)" % pk.params[1]
+    okimg = any(isinstance(x, ast.Call) and callee_name(x) == 'pack' and len(x.args) == 2 and U(_canon(x.args[0])) == "FMT('!{}', %s)" % pk.params[1]
                 for x in ast.walk(pk.node))
     ck.ob('R2', pk.qn, "value is first packed in network order ('!' + format)", okimg, detail='network-image', loc=cx.floc(pk))
 
